@@ -17,7 +17,7 @@ from ufl.constantvalue import Zero
 from ufl.core.interpolate import Interpolate
 from ufl.core.ufl_type import ufl_type
 from ufl.differentiation import CoefficientDerivative
-from ufl.form import BaseForm, Form, FormSum, ZeroBaseForm
+from ufl.form import BaseForm, FormSum, ZeroBaseForm
 
 # --- The Action class represents the action of a numerical object that needs
 #     to be computed at assembly time ---
@@ -149,10 +149,9 @@ class Action(BaseForm):
 
     def ufl_function_spaces(self):
         """Get the tuple of function spaces of the underlying form."""
-        if isinstance(self._right, Form):
-            return self._left.ufl_function_spaces()[:-1] + self._right.ufl_function_spaces()[1:]
-        elif isinstance(self._right, Coefficient):
-            return self._left.ufl_function_spaces()[:-1]
+        # The spaces of the arguments left after contraction (operands such as
+        # Adjoint, Form or FormSum do not all provide `ufl_function_spaces`).
+        return tuple(arg.ufl_function_space() for arg in self.arguments())
 
     def left(self):
         """Get left."""
